@@ -6,10 +6,12 @@ from scen import *
 # relation classes of a later binding w.r.t. a consumed key(1, CONTROL): same key, same key other mods, needs Ctrl, needs Shift, other key,
 # and for the other devices: same button, motion, wheel, pad button/axis with the same / a different device setting
 FAMILY = [key(1, CONTROL), key(1), key(2, CONTROL), key(1, SHIFT), key(2, SHIFT), key(3),
-          mbutton(0), mbutton(0, CONTROL), mbutton(1), motion(), motion(CONTROL), wheel(), wheel(SHIFT), pbutton(0), pbutton(1), paxis(0), paxis(1)]
+          mbutton(0), mbutton(0, CONTROL), mbutton(1), motion(), motion(CONTROL), wheel(), wheel(SHIFT), pbutton(0), pbutton(1), paxis(0), paxis(1),
+          # bindings requiring several modifiers: a superset of, a subset of, or overlapping with what a consumer used
+          key(2, CONTROL | SHIFT), key(3, SHIFT | ALT), mbutton(1, CONTROL | ALT), motion(CONTROL | SHIFT), key(2, ALT)]
 
 def rawall(rng=None, p=1.0):
-    keys = [k for k in [1, 2, 3, 102, 104] if rng is None or rng.random() < p]
+    keys = [k for k in [1, 2, 3, 100, 102, 104] if rng is None or rng.random() < p]
     return raw(keys=keys, mbuttons=[b_ for b_ in [0, 1] if rng is None or rng.random() < p],
                motion=(F(1), F(-1, 2)) if rng is None or rng.random() < p else (F(0), F(0)),
                wheel=(F(0), F(1)) if rng is None or rng.random() < p else (F(0), F(0)),
@@ -76,7 +78,7 @@ def random_case(rng, L):
 def cases(tier, rng):
     scripts = {'Fired': ['SNone', 'SFired', 'SFired', 'SFired'], 'Ongoing': ['SNone', 'SOngoing', 'SOngoing', 'SOngoing'], 'None': ['SNone', 'SNone', 'SNone', 'SNone'],
                'mixed': ['SNone', 'SFired', 'SNone', 'SOngoing']}
-    consumers = [key(1, CONTROL), key(1), mbutton(0, CONTROL), motion(), wheel(SHIFT), pbutton(0), paxis(0)]
+    consumers = [key(1, CONTROL), key(1), mbutton(0, CONTROL), motion(), wheel(SHIFT), pbutton(0), paxis(0), key(1, CONTROL | SHIFT), mbutton(0, SHIFT | ALT)]
     for cin in consumers:
         for name, sc in scripts.items():
             for consume in (True, False):
@@ -107,8 +109,8 @@ def nontrivial(case, out):
 
 STAGES = [dict(name='consumption', mode='app', coq='Check.C05w', cases=cases, nontrivial=nontrivial, shard=15,
                exhaustive={'thorough': True, 'quick': True},
-               rule='a consuming (or non-consuming) action on each of 7 inputs (Ctrl+K, K, Ctrl+mouse button, motion, Shift+wheel, gamepad button, gamepad axis) whose scripted final state is Fired / Ongoing / None / mixed, '
-                    'followed - in the same context or in a lower-priority one, with equal or different gamepad settings - by probed bindings of all 17 relation classes (same key, same key other modifiers, '
+               rule='a consuming (or non-consuming) action on each of 9 inputs (Ctrl+K, K, Ctrl+mouse button, motion, Shift+wheel, gamepad button, gamepad axis, Ctrl+Shift+K, Shift+Alt+mouse button) whose scripted final state is Fired / Ongoing / None / mixed, '
+                    'followed - in the same context or in a lower-priority one, with equal or different gamepad settings - by probed bindings of all 22 relation classes (incl. bindings requiring a superset / subset / overlap of the consumed modifier keys) (same key, same key other modifiers, '
                     'other key needing the used modifier, other modifier, other devices); an idle frame and a further frame check that nothing stays hidden; a context with unrelated, partly released inputs inserted or rebuilt between a consuming higher-priority context and a lower-priority listener while the contested input is held; random mixes (some contexts created late, rebuilds) of 2-4 contexts with 1-3 actions of 1-3 '
                     'bindings and scripted conditions at both levels. non-trivial = some action fires; distinct = distinct scenario text')]
 CLAUSES = {1: 'an input related to one consumed earlier in the frame did not read as inactive', 2: 'a read differs from the raw input although nothing related to it was consumed before it in this frame (earlier actions affected, hidden without consumption, or hidden across frames)',
